@@ -1,6 +1,6 @@
 (* C10 -- Disassembly is total, lossless and keeps byte offsets.
    Only statements, `exact lemma`, and Print Assumptions live here. *)
-From SLX Require Import Base gen.Constants gen.OpcodeTable Disasm proofs.DisasmProofs.
+From SLX Require Import Base gen.Constants gen.OpcodeTable Disasm proofs.DisasmProofs proofs.DisasmExtra.
 Open Scope N_scope.
 
 (* Every non-empty string of bytes (values < 256) of at most 2^32 bytes disassembles through
@@ -41,6 +41,25 @@ Theorem C10_table_roundtrip : forall b, b < 256 ->
   \/ (is_push b = false /\ exists i, decode1 b = Ok i /\ encode i = [b]).
 Proof. exact C10_table_proof. Qed.
 
+(* losslessness as injectivity: two different byte strings never give the same stream *)
+Theorem C10_injective : forall bs bs' is, bytes_ok bs -> bytes_ok bs' ->
+  N.of_nat (length bs) <= two32 -> N.of_nat (length bs') <= two32 ->
+  try_from bs = Ok is -> try_from bs' = Ok is -> bs = bs'.
+Proof. exact C10_injective_proof. Qed.
+
+(* the JUMPDEST entries of the stream (what jump targets are validated against) are EXACTLY the 0x5b bytes that
+   are not push data: none is invented, none is lost *)
+Theorem C10_jumpdest_exact : forall bs is i, bytes_ok bs -> N.of_nat (length bs) <= two32 ->
+  try_from bs = Ok is ->
+  (nth_error is i = Some (IOp control_JumpDest) <->
+   nth_error bs i = Some 91 /\ nth_error (immediates 0 bs) i = Some false).
+Proof. exact C10_jumpdest_exact_proof. Qed.
+
+(* a Nop entry stands only at a push-data position (no real instruction is ever decoded as the filler) *)
+Theorem C10_nop_only_push_data : forall bs is i, bytes_ok bs -> N.of_nat (length bs) <= two32 ->
+  try_from bs = Ok is -> nth_error is i = Some INop -> nth_error (immediates 0 bs) i = Some true.
+Proof. exact C10_nop_only_push_data_proof. Qed.
+
 (* non-vacuity: the hypotheses are met by a concrete non-trivial string (PUSH2 cut short, JUMPDEST in data) *)
 Example C10_hyps_met : let bs := [96; 91; 0; 97; 91] in
   bs <> [] /\ bytes_ok bs /\ N.of_nat (length bs) <= two32 /\
@@ -54,3 +73,6 @@ Print Assumptions C10_push_data_never_jumpdest.
 Print Assumptions C10_unassigned_invalid.
 Print Assumptions C10_bare_trailing_push.
 Print Assumptions C10_table_roundtrip.
+Print Assumptions C10_injective.
+Print Assumptions C10_jumpdest_exact.
+Print Assumptions C10_nop_only_push_data.
